@@ -2,7 +2,8 @@
 EXTENDS Adversarial, Json
 
 MCLexemes == { <<"LB","LB">>, <<"RB","RB">>, <<"LT">>, <<"GT">>, <<"SL">>, <<"DOL","t","LP">>, <<"RP">>, <<"COMMA">>,
-               <<"LB">>, <<"RB">>, <<"QUOT">>, <<"a">>, <<"E1">>, <<"SP">>, <<"NBSP">>, <<"EMO">> }
+               <<"LB">>, <<"RB">>, <<"QUOT">>, <<"a">>, <<"E1">>, <<"SP">>, <<"NBSP">>, <<"EMO">>,
+               <<"SP","SP">>, <<"NBSP","NBSP">> }   \* runs of blanks: trimmed lengths differ from untrimmed ones by more than a character
 
 EmitCases == PrintT(<<"CASE", ToJson([family |-> "adversarial", mode |-> "value", abs |-> [n |-> n], s |-> s])>>)
 MCSpec == Init /\ [][Next]_vars
